@@ -380,3 +380,30 @@ pub fn han_collide_values() -> Vec<V> {
     }
     out
 }
+
+/// valid floats that are pairwise distinct but include close neighbours (0 / 5e-324 / min normal,
+/// 1-ulp / 0.9999999999999999 / 1, 0.3 / 0.30000000000000004, f32-indistinguishable pairs)
+pub fn valid_floats() -> Vec<f64> {
+    vec![0.0, 5e-324, 2.2250738585072014e-308, 1e-7, 0.1, 0.3, 0.30000000000000004, 0.5, 0.9, 0.9000000001, 0.9999999999999999, 1.0 - f64::EPSILON / 2.0, 1.0]
+}
+
+/// every truth (1-2 numbers) and budget (1-3 numbers) over `valid_floats`, around one term
+pub fn float_family() -> Vec<V> {
+    let fs = valid_floats();
+    let t = R::word("a");
+    let mut out = vec![];
+    let mk = |truth: Vec<f64>, budget: Option<Vec<f64>>| V { term: R::word("a"), punct: Some(P::Judgement), stamp: St::Eternal, truth, budget };
+    let _ = &t;
+    for a in &fs {
+        out.push(mk(vec![*a], None));
+        out.push(mk(vec![], Some(vec![*a])));
+        for b in &fs {
+            out.push(mk(vec![*a, *b], None));
+            out.push(mk(vec![], Some(vec![*a, *b])));
+            for c in &fs {
+                out.push(mk(vec![], Some(vec![*a, *b, *c])));
+            }
+        }
+    }
+    out
+}
